@@ -56,7 +56,7 @@ structure NSt where
   enabled : Bool := true
 
 /-- the Go type of target `t` implements `BatchTarget` (fixed per target; the harness uses the same table) -/
-def batchCapable (t : Nat) : Bool := t == 1 || t == 3 || t == 4
+def batchCapable (t : Nat) : Bool := t == 1 || t == 3 || t == 4 || (decide (5 ≤ t) && t % 3 == 1)
 
 /-! ### Register -/
 def registerOne (prod : PMap) (n : Name) (t : Nat) (prio : Int) : PMap :=
